@@ -62,9 +62,14 @@ static ALLOC: counting::Counting = counting::Counting;
 
 // ------------------------------------------------------------------ templates
 
-pub const KINDS: [&str; 14] = [
+pub const KINDS: [&str; 16] = [
     "pairs", "vectors", "strings", "closures", "continuations", "eval", "toplevel", "symbols",
     "bignums", "mixed", "errors", "syntaxerrors", "unbound", "globalrefs",
+    // generated code whose LEXICAL variable names are fresh every iteration (handed to eval and dropped)
+    "evallex",
+    // the pairs loop run through the sliced entry point (prepare_eval + run_count with a budget far below the
+    // 8192-instruction collection cadence): slice boundaries must be collection points
+    "sliced",
 ];
 
 const BIG: &str = "(* 10000000000 10000000000)";
@@ -72,10 +77,10 @@ const BIG: &str = "(* 10000000000 10000000000)";
 /// `(mk j)`: one object of the kind, kept in the live list
 fn mk_body(kind: &str) -> String {
     match kind {
-        "pairs" => "(list j (cons j j))".into(),
+        "pairs" | "sliced" => "(list j (cons j j))".into(),
         "vectors" => "(make-vector 4 j)".into(),
         "strings" => "(string-append \"live\" (number->string j))".into(),
-        "closures" | "toplevel" | "errors" | "syntaxerrors" | "unbound" | "globalrefs" => "(let ((a j) (b (* j 2))) (lambda (x) (+ x a b)))".into(),
+        "closures" | "toplevel" | "errors" | "syntaxerrors" | "unbound" | "globalrefs" | "evallex" => "(let ((a j) (b (* j 2))) (lambda (x) (+ x a b)))".into(),
         "continuations" => "(call/cc (lambda (k) k))".into(),
         "eval" => "(eval (list 'lambda '(x) (list '+ 'x j)))".into(),
         "symbols" => "(string->symbol (string-append \"live\" (number->string j)))".into(),
@@ -99,7 +104,8 @@ fn mk_body(kind: &str) -> String {
 /// `(garbage i)`: creates short-lived objects of the kind and drops them
 fn garbage_body(kind: &str) -> String {
     match kind {
-        "pairs" => "(car (list i (cons i i) (list i i i) (append (list i) (list i))))".into(),
+        "pairs" | "sliced" => "(car (list i (cons i i) (list i i i) (append (list i) (list i))))".into(),
+        "evallex" => "((lambda (v) (procedure? (eval (list 'lambda (list v) (list 'lambda '() v))))) (string->symbol (string-append \"lexvar\" (number->string i))))".into(),
         "vectors" => "(+ (vector-ref (make-vector 5 i) 0) (vector-length (vector i i i))
                          (vector-length (list->vector (list i i))) (vector-length (vector-copy (vector i 2))))"
             .into(),
@@ -289,6 +295,22 @@ fn run_template(kind: &str, live: usize, n: usize) -> Result<RunResult, String> 
                     }
                 }
             }
+            "sliced" => {
+                let (cell, _) = marwood::parse::parse_text(&format!("(loop 0 {})", n)).unwrap();
+                vm.prepare_eval(&cell).unwrap();
+                let mut slices = 0usize;
+                loop {
+                    match vm.run_count(1000) {
+                        Ok(Some(_)) => break,
+                        Ok(None) => {}
+                        Err(_) => panic!("sliced loop failed"),
+                    }
+                    slices += 1;
+                    if slices % 4096 == 0 {
+                        drain(&mut vm, &mut points);
+                    }
+                }
+            }
             _ => {
                 if vm.eval_text(&format!("(loop 0 {})", n)).is_err() {
                     panic!("loop failed");
@@ -451,7 +473,7 @@ fn obs_held(r10: &Result<RunResult, String>, r1: &Result<RunResult, String>) -> 
 fn cap_for(kind: &str, max_exp: u32) -> u32 {
     // one top-level evaluation costs a parse + compile (and one collection point each): one decade less
     match kind {
-        "toplevel" | "errors" | "syntaxerrors" | "unbound" | "globalrefs" | "eval" | "mixed" => max_exp.saturating_sub(1).max(3),
+        "toplevel" | "errors" | "syntaxerrors" | "unbound" | "globalrefs" | "eval" | "mixed" | "evallex" => max_exp.saturating_sub(1).max(3),
         _ => max_exp,
     }
 }
